@@ -351,6 +351,10 @@ type world struct {
 	locals [20]viewRec
 	clock  atomic.Uint64
 	cb     atomic.Uint64
+	// measured: how often a call started on a shared view OBJECT while another call was running on the same object (any kind /
+	// both of them Get or Has, i.e. holding the view's lock in read mode at the same time)
+	busy, busyR       [8]atomic.Int32
+	sameView, sameRdr atomic.Int64
 }
 
 // viewOf: the view a call goes through: a shared one, or (view < 0) the goroutine's private one - the shared view of the
@@ -548,6 +552,18 @@ func scribble(b []byte) {
 func (w *world) exec(c *call, inCallback func()) []*hop {
 	vr := w.viewOf(c)
 	fk := vr.realm + c.key
+	if c.view >= 0 && c.view < len(w.busy) {
+		if w.busy[c.view].Add(1) > 1 {
+			w.sameView.Add(1)
+		}
+		defer w.busy[c.view].Add(-1)
+		if c.kind == "get" || c.kind == "has" {
+			if w.busyR[c.view].Add(1) > 1 {
+				w.sameRdr.Add(1)
+			}
+			defer w.busyR[c.view].Add(-1)
+		}
+	}
 	var o hop
 	switch c.kind {
 	case "mkview":
@@ -800,6 +816,8 @@ func runStress(rng *hx.Rng, r *hx.Run) result {
 	r.Count(fmt.Sprintf("inflight:%02d", inflight))
 	r.Count(fmt.Sprintf("wrap:%d", wrap))
 	r.CountN("debug-callbacks", int(w.cb.Load()))
+	r.CountN("calls-started-while-another-ran-on-the-same-view-object", int(w.sameView.Load()))
+	r.CountN("get/has-started-while-another-get/has-ran-on-the-same-view-object", int(w.sameRdr.Load()))
 
 	return res
 }
@@ -1335,7 +1353,7 @@ func main() {
 		}
 		if len(plan) > 0 && strings.HasPrefix(plan[0], "x probe") {
 			// the replay of a crash finding: the same plan, again in a child process
-			runProbe(r, 0, plan, 0)
+			_, _ = runProbe(r, 0, plan, 0)
 			r.Finish()
 
 			return
@@ -1365,10 +1383,17 @@ func main() {
 		if p%2 == 1 {
 			wrap = rng.Intn(4)
 		}
-		if runProbe(r, sub, genProbePlan(rng, wrap, rng.Range(6, 12), 24, rounds), p) {
-			r.Finish() // the in-process scenarios would die the same way
+		if died, oracle := runProbe(r, sub, genProbePlan(rng, wrap, rng.Range(6, 12), 24, rounds), p); died {
+			if oracle != "deadlock" {
+				r.Finish() // a fatal runtime error / race report / panic: the in-process scenarios would die the same way
 
-			return
+				return
+			}
+			// a hang of the child: the in-process scenarios have their own watchdog (and stop after the second hang), so the
+			// histories they record before that are not lost - they may add failing inputs of other oracles
+			r.Count("probe-hang-in-process-scenarios-still-run")
+
+			break
 		}
 	}
 	n := 2000 * r.Scale // thorough: 40 000 histories (60 000 took 19.8 min on the loaded machine once the probe, the fresh-view scenario and the flag calls were added)
